@@ -1215,10 +1215,12 @@ func (w *vzWorld) finalChecks() {
 		}
 		if current && got && sn.err == nil {
 			// everything that was parked has run: the consumers have been served whatever was pending
-			for i := 0; i < 50; i++ {
+			drained := false
+			for i := 0; i < 3000; i++ {
 				vsimcore.Wait()
 				ps := w.s.Parked()
 				if len(ps) == 0 {
+					drained = true
 					break
 				}
 				for _, n := range ps {
@@ -1226,7 +1228,11 @@ func (w *vzWorld) finalChecks() {
 				}
 			}
 			vsimcore.Wait()
-			w.orc.checkConsumersCurrent(nd, &sn.v, &sn.c)
+			if drained {
+				w.orc.checkConsumersCurrent(nd, &sn.v, &sn.c)
+			} else {
+				w.s.Probe("final_drain_incomplete")
+			}
 		}
 	}
 }
